@@ -31,6 +31,17 @@ def grid(a, bits=GRID_BITS):
   return np.round(np.asarray(a, dtype=float) * (1 << bits)) / (1 << bits)
 
 
+def relabel(rng, y):
+  """the same partition into classes under an arbitrary alphabet of distinct non-negative integers
+  (class ids need not be 0..c-1: gaps, large ids, any order)"""
+  ids = np.unique(y)
+  new = rng.choice(np.arange(0, 4 * len(ids) + 6), size=len(ids), replace=False)
+  out = np.array(y).copy()
+  for a, b in zip(ids, new):
+    out[np.asarray(y) == a] = b
+  return out
+
+
 def dataset(rng, d=None, n_classes=None, per_class=None, sep=2.0, bits=GRID_BITS):
   """well-formed classification data on the dyadic grid; returns X (n,d), y (n,) ints 0..c-1"""
   d = d or int(rng.integers(2, 6))
